@@ -238,10 +238,32 @@ brk('c15_remainder_dropped', 'C15', FUN, '''        if !rest.is_empty() {
         }
         Ok(duration)''', '''        let _ = rest;
         Ok(duration)''')
-brk('c15_nom_double_again', 'C15', DURF, '''    map_res(
-        recognize(pair(digit1, opt(pair(char('.'), digit1)))),
-        str::parse::<f64>,
-    )(i)''', '''    nom::number::complete::double(i)''')
+brk('c15_nom_double_again', 'C15', DURF, '''    pair(
+        digit1,
+        map(opt(preceded(char('.'), digit1)), |frac: Option<&str>| {
+            frac.unwrap_or("")
+        }),
+    )(i)''', '''    map(nom::number::complete::recognize_float, |s: &str| {
+        s.split_once('.').unwrap_or((s, ""))
+    })(i)''')
+brk('c15_float_again', 'C15', DURF, '''    let unit = i128::from(unit.nanos());
+    let mut nanos = int.parse::<i128>().ok()?.checked_mul(unit)?;''', '''    if frac.len() <= 3 {
+        let num: f64 = format!("{int}.{frac}0").parse().ok()?;
+        let nanos = (num * unit.nanos() as f64).trunc();
+        if nanos.is_nan() || nanos >= i64::MAX as f64 || nanos < i64::MIN as f64 {
+            return None;
+        }
+        return Some(Duration::nanoseconds(nanos as i64));
+    }
+    let unit = i128::from(unit.nanos());
+    let mut nanos = int.parse::<i128>().ok()?.checked_mul(unit)?;''')
+brk('c15_micro_sign_dropped', 'C15', DURF, '''        map(tag("\\u{b5}s"), |_| Unit::Microsecond),
+''', '')
+brk('c15_fraction_trimmed', 'C15', DURF, '''    let digits = frac.get(..frac.len().min(24))?;''', '''    let digits = frac.get(..frac.len().min(24))?.trim_matches('0');''')
+brk('c15_scale_from_whole_fraction', 'C15', DURF, '''        let scale = 10i128.checked_pow(u32::try_from(digits.len()).ok()?)?;''', '''        let scale = 10i128.checked_pow(u32::try_from(frac.len()).ok()?)?;''')
+neu('n_to_duration_factors_swapped', 'C15 C02', DURF, '''        let part = digits.parse::<i128>().ok()?.checked_mul(unit)?;''', '''        let part = unit.checked_mul(digits.parse::<i128>().ok()?)?;''')
+neu('n_to_duration_fraction_first', 'C15 C02', DURF, '''    let mut nanos = int.parse::<i128>().ok()?.checked_mul(unit)?;''', '''    let whole = int.parse::<i128>().ok()?;
+    let mut nanos = whole.checked_mul(unit)?;''')
 brk('c15_sign_lost', 'C15', DURF, '''    let mut u = nanos.unsigned_abs();''', '''    let mut u = nanos as u128;''')
 brk('c15_duration_add_panics', 'C15 C02', OBJ, '''            (Value::Duration(l), Value::Duration(r)) => l
                 .checked_add(&r)
@@ -249,19 +271,14 @@ brk('c15_duration_add_panics', 'C15 C02', OBJ, '''            (Value::Duration(l
                 .map(Value::Duration),''', '''            (Value::Duration(l), Value::Duration(r)) => Value::Duration(l + r).into(),''')
 brk('c15_minutes_are_ms', 'C15', DURF, '''        map(char('m'), |_| Unit::Minute),''', '''        map(char('m'), |_| Unit::Millisecond),''')
 brk('c15_m_before_ms', 'C15', DURF, '''        map(tag("ms"), |_| Unit::Millisecond),
-        map(tag("us"), |_| Unit::Microsecond),
-        map(tag("ns"), |_| Unit::Nanosecond),
-        map(char('h'), |_| Unit::Hour),
-        map(char('m'), |_| Unit::Minute),''', '''        map(char('m'), |_| Unit::Minute),
+        map(tag("us"), |_| Unit::Microsecond),''', '''        map(char('m'), |_| Unit::Minute),
         map(tag("ms"), |_| Unit::Millisecond),
-        map(tag("us"), |_| Unit::Microsecond),
-        map(tag("ns"), |_| Unit::Nanosecond),
-        map(char('h'), |_| Unit::Hour),''')
-brk('c15_term_saturates', 'C15', DURF, '''    if nanos.is_nan() || nanos >= i64::MAX as f64 || nanos < i64::MIN as f64 {
-        return None;
-    }''', '''    if nanos.is_nan() {
-        return None;
-    }''')
+        map(tag("us"), |_| Unit::Microsecond),''', DURF, '''        map(char('h'), |_| Unit::Hour),
+        map(char('m'), |_| Unit::Minute),''', '''        map(char('h'), |_| Unit::Hour),''')
+brk('c15_term_saturates', 'C15', DURF, '''    i64::try_from(nanos).ok().map(Duration::nanoseconds)''', '''    Some(Duration::nanoseconds(
+        nanos.clamp(i128::from(i64::MIN), i128::from(i64::MAX)) as i64,
+    ))''')
+brk('c15_term_wraps', 'C15', DURF, '''    i64::try_from(nanos).ok().map(Duration::nanoseconds)''', '''    Some(Duration::nanoseconds(nanos as i64))''')
 # ---- C16
 brk('c16_month_one_based', 'C16', FUN, '''        Ok((this.month0() as i32).into())''', '''        Ok((this.month() as i32).into())''')
 brk('c16_hours_in_utc', 'C16', FUN, '''        Ok((this.hour() as i32).into())''', '''        Ok((this.to_utc().hour() as i32).into())''')
@@ -692,10 +709,10 @@ neu('n_json_arms_reordered', 'C18', JSF, '''            Value::Int(i) => i.into(
             Value::UInt(u) => u.into(),
             Value::Int(i) => i.into(),''')
 neu('n_units_two_letter_reordered', 'C15', DURF, '''        map(tag("ms"), |_| Unit::Millisecond),
-        map(tag("us"), |_| Unit::Microsecond),
-        map(tag("ns"), |_| Unit::Nanosecond),''', '''        map(tag("ns"), |_| Unit::Nanosecond),
-        map(tag("us"), |_| Unit::Microsecond),
-        map(tag("ms"), |_| Unit::Millisecond),''')
+        map(tag("us"), |_| Unit::Microsecond),''', '''        map(tag("ns"), |_| Unit::Nanosecond),
+        map(tag("us"), |_| Unit::Microsecond),''', DURF, '''        map(tag("ns"), |_| Unit::Nanosecond),
+        map(char('h'), |_| Unit::Hour),''', '''        map(tag("ms"), |_| Unit::Millisecond),
+        map(char('h'), |_| Unit::Hour),''')
 neu('n_string_index_helper_extracted', 'C14 C02 C07 C06 C19', OBJ, '''                                (Value::String(str), Value::Int(idx)) => {
                                     let start = idx as usize;
                                     match start.checked_add(1).and_then(|end| str.get(start..end)) {
